@@ -1,7 +1,8 @@
 (* C11 — Matrix and Euler conversions are exact inverses of matrix() / each other.
    Statements only (over R); proofs in Proofs/Convert.v; model in Model/Convert.v.
 
-   Reading guide.  A batch is the list of its items; [B] is its shape.  [Value out]: the call returns,
+   Reading guide.  A batch is the list of its items (any number, any shape; [B] = batch shape occurs
+   only in the history theorems about the code before its repair).  [Value out]: the call returns,
    item i of the result is [out_i] ([None] = non-finite entries); [Raises e]: the call raises.
    [lay_in l M] is the 4x4 matrix M handed over as 3x3 block / first three rows / whole (L33 / L34 /
    L44); [lay_t l t] is the translation that layout carries (zero for L33).
@@ -40,18 +41,18 @@ Theorem C11_mat2SE3_roundtrip : forall (rtol atol : R) (check : bool) (l : layou
   exists out, mat2SE3 rtol atol check (map (fun X => lay_in l (matrix4 SE3_act4 X)) Xs) = Value out /\
               Forall2 (se3_rt l) Xs out.
 Proof. exact mat2SE3_roundtrip. Qed.
-(* scale s > 0; the rank test needs a batch shape whose B+(1,) broadcasts with B (see the refutation
-   below) and at least one item with s > atol *)
-Theorem C11_mat2Sim3_roundtrip : forall (rtol atol : R) (check : bool) (l : layout) (B : list nat) (Xs : list sim3R),
+(* scale s > 0, every batch (the model no longer looks at the batch shape; the empty batch returns the
+   empty batch); the rank test needs one item with s > atol in a non-empty batch *)
+Theorem C11_mat2Sim3_roundtrip : forall (rtol atol : R) (check : bool) (l : layout) (Xs : list sim3R),
   0 <= rtol -> 0 <= atol < 1 -> Forall valid_Sim3 Xs ->
-  broadcastable (B ++ [1%nat]) B = true -> (exists X, In X Xs /\ atol < snd (snd X)) ->
-  exists out, mat2Sim3 rtol atol check B (map (fun X => lay_in l (matrix4 Sim3_act4 X)) Xs) = Value out /\
+  (Xs = [] \/ exists X, In X Xs /\ atol < snd (snd X)) ->
+  exists out, mat2Sim3 rtol atol check (map (fun X => lay_in l (matrix4 Sim3_act4 X)) Xs) = Value out /\
               Forall2 (sim3_rt l) Xs out.
 Proof. exact mat2Sim3_roundtrip. Qed.
-Theorem C11_mat2RxSO3_roundtrip : forall (rtol atol : R) (check : bool) (l : layout) (B : list nat) (Xs : list rxso3R),
+Theorem C11_mat2RxSO3_roundtrip : forall (rtol atol : R) (check : bool) (l : layout) (Xs : list rxso3R),
   0 <= rtol -> 0 <= atol < 1 -> Forall valid_RxSO3 Xs ->
-  broadcastable (B ++ [1%nat]) B = true -> (exists X, In X Xs /\ atol < snd X) ->
-  exists out, mat2RxSO3 rtol atol check B (map (fun X => lay_in l (matrix4 RxSO3_act4 X)) Xs) = Value out /\
+  (Xs = [] \/ exists X, In X Xs /\ atol < snd X) ->
+  exists out, mat2RxSO3 rtol atol check (map (fun X => lay_in l (matrix4 RxSO3_act4 X)) Xs) = Value out /\
               Forall2 rxso3_rt Xs out.
 Proof. exact mat2RxSO3_roundtrip. Qed.
 (* same matrix (with the translation of the layout), valid element, same scale *)
@@ -68,25 +69,37 @@ Proof. exact rxso3_rt_same. Qed.
 Theorem C11_full_layouts_keep_translation : forall l (t : vec3R), l <> L33 -> lay_t l t = t.
 Proof. exact lay_t_full. Qed.
 
-(* REFUTED on the faithful model: "all batch shapes".  The rank test allclose(s, zeros(shape[:-2]))
-   compares shapes B+(1,) and B; whenever they do not broadcast the call raises RuntimeError, whatever
-   the (valid) items are - e.g. lshape (2,3).  Recorded as known findings. *)
-Theorem C11_mat2Sim3_shape_raises : forall (rtol atol : R) (check : bool) (B : list nat) (Ms : list (@matin R)),
-  broadcastable (B ++ [1%nat]) B = false -> mat2Sim3 rtol atol check B Ms = Raises RuntimeError.
-Proof. exact mat2Sim3_shape. Qed.
-Theorem C11_mat2RxSO3_shape_raises : forall (rtol atol : R) (check : bool) (B : list nat) (Ms : list (@matin R)),
-  broadcastable (B ++ [1%nat]) B = false -> mat2RxSO3 rtol atol check B Ms = Raises RuntimeError.
-Proof. exact mat2RxSO3_shape. Qed.
-Theorem C11_mat2Sim3_batch_shape_refuted : forall (rtol atol : R) (check : bool) (l : layout),
+(* History.  Before /repo 988caf7 the rank test was allclose(s, zeros(shape[:-2])), comparing shapes
+   B+(1,) and B ([mat2Sim3_old], [mat2RxSO3_old] in Model/Convert.v): on that code the "all batch
+   shapes" clause was REFUTED - every batch shape for which the two do not broadcast raised RuntimeError
+   whatever the (valid) items, e.g. lshape (2,3), and the empty batch raised "not full rank".  The
+   repaired code is the model above; where the old test was well-formed the two agree. *)
+Theorem C11_mat2Sim3_old_shape_raises : forall (rtol atol : R) (check : bool) (B : list nat) (Ms : list (@matin R)),
+  broadcastable (B ++ [1%nat]) B = false -> mat2Sim3_old rtol atol check B Ms = Raises RuntimeError.
+Proof. exact mat2Sim3_old_shape. Qed.
+Theorem C11_mat2RxSO3_old_shape_raises : forall (rtol atol : R) (check : bool) (B : list nat) (Ms : list (@matin R)),
+  broadcastable (B ++ [1%nat]) B = false -> mat2RxSO3_old rtol atol check B Ms = Raises RuntimeError.
+Proof. exact mat2RxSO3_old_shape. Qed.
+Theorem C11_mat2Sim3_old_batch_shape_refuted : forall (rtol atol : R) (check : bool) (l : layout),
   exists (B : list nat) (Xs : list sim3R),
     length Xs = fold_right Nat.mul 1%nat B /\ Forall valid_Sim3 Xs /\ (forall X, In X Xs -> snd (snd X) = 2) /\
-    mat2Sim3 rtol atol check B (map (fun X => lay_in l (matrix4 Sim3_act4 X)) Xs) = Raises RuntimeError.
-Proof. exact mat2Sim3_batch_shape_refuted. Qed.
-Theorem C11_mat2RxSO3_batch_shape_refuted : forall (rtol atol : R) (check : bool) (l : layout),
+    mat2Sim3_old rtol atol check B (map (fun X => lay_in l (matrix4 Sim3_act4 X)) Xs) = Raises RuntimeError.
+Proof. exact mat2Sim3_old_batch_shape_refuted. Qed.
+Theorem C11_mat2RxSO3_old_batch_shape_refuted : forall (rtol atol : R) (check : bool) (l : layout),
   exists (B : list nat) (Xs : list rxso3R),
     length Xs = fold_right Nat.mul 1%nat B /\ Forall valid_RxSO3 Xs /\ (forall X, In X Xs -> snd X = 2) /\
-    mat2RxSO3 rtol atol check B (map (fun X => lay_in l (matrix4 RxSO3_act4 X)) Xs) = Raises RuntimeError.
-Proof. exact mat2RxSO3_batch_shape_refuted. Qed.
+    mat2RxSO3_old rtol atol check B (map (fun X => lay_in l (matrix4 RxSO3_act4 X)) Xs) = Raises RuntimeError.
+Proof. exact mat2RxSO3_old_batch_shape_refuted. Qed.
+Theorem C11_old_empty_batch_refuted : forall (rtol atol : R) (check : bool),
+  mat2Sim3_old rtol atol check [0%nat] [] = Raises (ValueError E_rank) /\
+  mat2RxSO3_old rtol atol check [0%nat] [] = Raises (ValueError E_rank).
+Proof. intros. split; [apply mat2Sim3_old_empty | apply mat2RxSO3_old_empty]. Qed.
+Theorem C11_empty_batch_returns : forall (rtol atol : R) (check : bool),
+  mat2Sim3 rtol atol check [] = Value [] /\ mat2RxSO3 rtol atol check [] = Value [].
+Proof. intros. split; [apply mat2Sim3_empty | apply mat2RxSO3_empty]. Qed.
+Theorem C11_old_rank_test_agrees_where_well_formed : forall (rtol atol : R) (B : list nat) (Ms : list (@matin R)),
+  broadcastable (B ++ [1%nat]) B = true -> Ms <> [] -> scale_stage_old rtol atol B Ms = scale_stage rtol atol Ms.
+Proof. exact scale_stage_old_agrees. Qed.
 
 (* ---- check=True ---- *)
 (* valid inputs never raise: the matrix of a unit quaternion is within every tolerance >= 0 *)
@@ -114,29 +127,29 @@ Proof. intros. split; [apply orth_ok_true | apply det_ok_true]. Qed.
 Theorem C11_accepted_layouts : forall rows cols : nat,
   accepted rows cols = true <-> (rows, cols) = (3, 3)%nat \/ (rows, cols) = (3, 4)%nat \/ (rows, cols) = (4, 4)%nat.
 Proof. exact accepted_spec. Qed.
-Theorem C11_from_matrix_rejects_shape : forall (rtol atol : R) ltype check B rows cols (data : list (list R)),
-  accepted rows cols = false -> from_matrix_l rtol atol ltype check B rows cols data = Raises (ValueError E_size).
+Theorem C11_from_matrix_rejects_shape : forall (rtol atol : R) ltype check rows cols (data : list (list R)),
+  accepted rows cols = false -> from_matrix_l rtol atol ltype check rows cols data = Raises (ValueError E_size).
 Proof. exact from_matrix_rejects_shape. Qed.
-Theorem C11_from_matrix_rejects_ltype : forall (rtol atol : R) ltype check B rows cols (data : list (list R)),
+Theorem C11_from_matrix_rejects_ltype : forall (rtol atol : R) ltype check rows cols (data : list (list R)),
   accepted rows cols = true -> (3 < ltype)%nat ->
-  from_matrix_l rtol atol ltype check B rows cols data = Raises (ValueError E_ltype).
+  from_matrix_l rtol atol ltype check rows cols data = Raises (ValueError E_ltype).
 Proof. exact from_matrix_rejects_ltype. Qed.
 (* on the entry lists of X.matrix() from_matrix is mat2X on the corresponding layout *)
-Theorem C11_from_matrix_SO3 : forall (rtol atol : R) check B (qs : list quatR),
-  from_matrix_l rtol atol 0 check B 3 3 (map (fun q => m3_l (SO3_matrix q)) qs) =
+Theorem C11_from_matrix_SO3 : forall (rtol atol : R) check (qs : list quatR),
+  from_matrix_l rtol atol 0 check 3 3 (map (fun q => m3_l (SO3_matrix q)) qs) =
   lmap q_l (mat2SO3 rtol atol check (map (fun q => Some (SO3_matrix q)) qs)).
 Proof. exact from_matrix_SO3. Qed.
-Theorem C11_from_matrix_SE3 : forall (rtol atol : R) check B l (Xs : list se3R),
-  from_matrix_l rtol atol 1 check B (lay_rows l) (lay_cols l) (map (fun X => lay_l l (matrix4 SE3_act4 X)) Xs) =
+Theorem C11_from_matrix_SE3 : forall (rtol atol : R) check l (Xs : list se3R),
+  from_matrix_l rtol atol 1 check (lay_rows l) (lay_cols l) (map (fun X => lay_l l (matrix4 SE3_act4 X)) Xs) =
   lmap SE3_l (mat2SE3 rtol atol check (map (fun X => lay_in l (matrix4 SE3_act4 X)) Xs)).
 Proof. exact from_matrix_SE3. Qed.
-Theorem C11_from_matrix_RxSO3 : forall (rtol atol : R) check B l (Xs : list rxso3R),
-  from_matrix_l rtol atol 2 check B (lay_rows l) (lay_cols l) (map (fun X => lay_l l (matrix4 RxSO3_act4 X)) Xs) =
-  lmap RxSO3_l (mat2RxSO3 rtol atol check B (map (fun X => lay_in l (matrix4 RxSO3_act4 X)) Xs)).
+Theorem C11_from_matrix_RxSO3 : forall (rtol atol : R) check l (Xs : list rxso3R),
+  from_matrix_l rtol atol 2 check (lay_rows l) (lay_cols l) (map (fun X => lay_l l (matrix4 RxSO3_act4 X)) Xs) =
+  lmap RxSO3_l (mat2RxSO3 rtol atol check (map (fun X => lay_in l (matrix4 RxSO3_act4 X)) Xs)).
 Proof. exact from_matrix_RxSO3. Qed.
-Theorem C11_from_matrix_Sim3 : forall (rtol atol : R) check B l (Xs : list sim3R),
-  from_matrix_l rtol atol 3 check B (lay_rows l) (lay_cols l) (map (fun X => lay_l l (matrix4 Sim3_act4 X)) Xs) =
-  lmap Sim3_l (mat2Sim3 rtol atol check B (map (fun X => lay_in l (matrix4 Sim3_act4 X)) Xs)).
+Theorem C11_from_matrix_Sim3 : forall (rtol atol : R) check l (Xs : list sim3R),
+  from_matrix_l rtol atol 3 check (lay_rows l) (lay_cols l) (map (fun X => lay_l l (matrix4 Sim3_act4 X)) Xs) =
+  lmap Sim3_l (mat2Sim3 rtol atol check (map (fun X => lay_in l (matrix4 Sim3_act4 X)) Xs)).
 Proof. exact from_matrix_Sim3. Qed.
 
 (* ---- Euler angles ---- *)
@@ -164,8 +177,9 @@ Print Assumptions C11_mat2SO3_discriminant_bound. Print Assumptions C11_mat2SO3_
 Print Assumptions C11_mat2SE3_roundtrip. Print Assumptions C11_mat2Sim3_roundtrip. Print Assumptions C11_mat2RxSO3_roundtrip.
 Print Assumptions C11_SE3_same_matrix. Print Assumptions C11_Sim3_same_matrix. Print Assumptions C11_RxSO3_same_matrix.
 Print Assumptions C11_full_layouts_keep_translation.
-Print Assumptions C11_mat2Sim3_shape_raises. Print Assumptions C11_mat2RxSO3_shape_raises.
-Print Assumptions C11_mat2Sim3_batch_shape_refuted. Print Assumptions C11_mat2RxSO3_batch_shape_refuted.
+Print Assumptions C11_mat2Sim3_old_shape_raises. Print Assumptions C11_mat2RxSO3_old_shape_raises.
+Print Assumptions C11_mat2Sim3_old_batch_shape_refuted. Print Assumptions C11_mat2RxSO3_old_batch_shape_refuted.
+Print Assumptions C11_old_empty_batch_refuted. Print Assumptions C11_empty_batch_returns. Print Assumptions C11_old_rank_test_agrees_where_well_formed.
 Print Assumptions C11_check_accepts_valid. Print Assumptions C11_check_rejects. Print Assumptions C11_check_raises_ValueError.
 Print Assumptions C11_within_tol_is_the_coded_test.
 Print Assumptions C11_accepted_layouts. Print Assumptions C11_from_matrix_rejects_shape. Print Assumptions C11_from_matrix_rejects_ltype.
